@@ -26,6 +26,7 @@ func runFork(rng *rand.Rand, n int, out *Out, _ []string) {
 type gen struct {
 	nd     *Node
 	rng    *rand.Rand
+	out    *Out
 	actors []*wallet.KeyPair
 }
 
@@ -44,14 +45,36 @@ func (g *gen) submit(b *nom.AccountBlock, kp *wallet.KeyPair) *nom.AccountBlock 
 }
 func (g *gen) transfer() *nom.AccountBlock {
 	kp := g.actors[g.rng.Intn(len(g.actors))]
+	amount := int64(1 + g.rng.Intn(5000))
+	if g.rng.Intn(4) == 0 { // a send that carries nothing is a send
+		amount = 0
+	}
 	return g.submit(&nom.AccountBlock{BlockType: nom.BlockTypeUserSend, Address: kp.Address, ToAddress: g.actors[g.rng.Intn(len(g.actors))].Address,
-		TokenStandard: types.ZnnTokenStandard, Amount: big.NewInt(int64(1 + g.rng.Intn(5000)))}, kp)
+		TokenStandard: types.ZnnTokenStandard, Amount: big.NewInt(amount)}, kp)
 }
 func (g *gen) call() *nom.AccountBlock {
 	kp := g.actors[g.rng.Intn(len(g.actors))]
 	return g.submit(&nom.AccountBlock{BlockType: nom.BlockTypeUserSend, Address: kp.Address, ToAddress: types.AcceleratorContract,
 		TokenStandard: types.ZnnTokenStandard, Amount: big.NewInt(int64(1 + g.rng.Intn(500))),
 		Data: definition.ABICommon.PackMethodPanic(definition.DonateMethodName)}, kp)
+}
+
+// momentum: the node's own producer, or (every second one) a momentum as another producer may list it (hz/c04_listed.go):
+// the receiving node gets it through InsertChain and has to queue the sends to a contract in the LISTED order.
+func (g *gen) momentum() {
+	if g.rng.Intn(2) == 0 {
+		g.nd.Momentum()
+		return
+	}
+	unsorted, _, err := g.nd.MomentumListed(g.rng, 0) // (everything in the pool: the branches rely on the prefix confirming every send)
+	switch {
+	case err != nil:
+		g.out.Count("c04:fork:listed-momentum-failed:" + err.Error())
+	case unsorted:
+		g.out.Count("c04:fork:momentum-listing:other-producer:unsorted")
+	default:
+		g.out.Count("c04:fork:momentum-listing:other-producer:same-as-sorted")
+	}
 }
 
 // receive send by its addressee; pad = a preceding send of the same account, so that the receiving block differs
@@ -69,7 +92,7 @@ func (g *gen) receive(send *nom.AccountBlock, pad bool) *nom.AccountBlock {
 
 func forkHistory(rng *rand.Rand, out *Out) {
 	G := NewNode()
-	g := &gen{nd: G, rng: rng, actors: Actors()}
+	g := &gen{nd: G, rng: rng, out: out, actors: Actors()}
 	// prefix: sends between users and to a contract, confirmed
 	var sends []*nom.AccountBlock
 	P := 2 + rng.Intn(4)
@@ -79,12 +102,12 @@ func forkHistory(rng *rand.Rand, out *Out) {
 				sends = append(sends, b)
 			}
 		}
-		if rng.Intn(2) == 0 {
+		for k := rng.Intn(4); k > 0; k-- {
 			g.call()
 		}
-		G.Momentum()
+		g.momentum()
 	}
-	G.Momentum()
+	g.momentum()
 	forkH := G.FrontierHeight()
 	if len(sends) == 0 {
 		G.Stop()
@@ -107,7 +130,7 @@ func forkHistory(rng *rand.Rand, out *Out) {
 			for k := rng.Intn(3); k > 0; k-- {
 				g.call()
 			}
-			G.Momentum()
+			g.momentum()
 		}
 	}
 	LA := 1 + rng.Intn(4)
@@ -154,6 +177,9 @@ func forkHistory(rng *rand.Rand, out *Out) {
 		ok, d := s.ReceiveOracle()
 		d["when"] = when
 		out.Oracle(ok, "c04-receive-once-addressee-fifo", d)
+		ok, d = FifoListedOracle(R.Ch, true)
+		d["when"] = when
+		out.Oracle(ok, "c04-fifo-listed-confirmation-order", d)
 		return s
 	}
 	if _, err := R.Br.InsertChain(chainA); err != nil {
